@@ -5,7 +5,7 @@ Driver of C05. Payload: `evPayload` sections joined by ` @ ` — the program, th
 expressions (see go/cmd/harness/c05.go). All sections are evaluated by `Ecal.Ev.eval` one after the
 other in ONE global scope and ONE state. Result:
 
-  `<outcome of the program>;G <dump of the global scope>;LOG <trace>;<outcome of probe 1> L <its trace>;…;G <dump after the probes>`
+  `<outcome of the program>;G <dump of the global scope>;LOG <trace>;F <call frames>;<outcome of probe 1> L <its trace>;…;G <dump after the probes>`
 
 with outcome = `OK <canonical value> | ERR <type-hex> | ERRPLAIN | NOPARSE | V ERR <type-hex>`.
 If the PROGRAM leaves the model or shows a value the model does not know, the whole case is `UNSUP …` (not compared);
@@ -60,6 +60,16 @@ def canonErrObjects (t : String) : String :=
   ((((t.replace "s6572726f72:?error text" "s6572726f72:~E").replace "s64657461696c:?detail text" "s64657461696c:~D").replace
     "s736f75726365:?source name" "s736f75726365:~S").replace "s7472616365:?trace" "s7472616365:~T").replace "?int" "~I"
 
+/-- the call frames of the state in creation order (linked ones: a frame whose construction failed stays
+    parentless and is not reported by the code either): scope name, name of the scope it is linked to, and the names
+    it holds IN INSERTION ORDER — `this`, `super`, the parameters come first (`frame_contents`), locals of the body
+    after them; props/C05.py compares the names the real frame held when the body started with that prefix -/
+def framesText (st : St) : String :=
+  let frames := st.scopes.toList.filter fun s => s.name.startsWith "func: " && s.parent.isSome
+  "|".intercalate (frames.map fun s =>
+    let pn := match s.parent with | some p => (st.scopes.getD p default).name | none => ""
+    hexEnc (strBytes s.name) ++ ">" ++ hexEnc (strBytes pn) ++ "[" ++ ",".intercalate (s.vars.map fun kv => hexEnc (strBytes kv.1)) ++ "]")
+
 def logFrom (st : St) (i : Nat) : String := "|".intercalate (st.log.toList.drop i)
 
 /-- one probe: its section text, or `none` when it leaves the model (`Sig.unsupported`); other fatal signals end
@@ -96,7 +106,7 @@ def runSections (secs : List String) : String :=
       let g ← newScope "GlobalScope"
       let p0 ← runSection g prog
       let st0 ← get
-      let head := [p0, "G " ++ globalDump st0 g, "LOG " ++ logText st0]
+      let head := [p0, "G " ++ globalDump st0 g, "LOG " ++ logText st0, "F " ++ framesText st0]
       let (ps, ok) ← runProbes g probes
       let st1 ← get
       pure (head ++ ps ++ [if ok then "G " ++ globalDump st1 g else "U"], st0.log.size ≥ 1)
@@ -107,7 +117,7 @@ def runSections (secs : List String) : String :=
     | .ok (secs, nt) =>
       let secs := secs.map maskUnknown
       -- the program itself (outcome, dump, trace) must be known, otherwise nothing is compared
-      if (secs.take 3).contains "U" then "UNSUP result shows a value the model does not know"
+      if (secs.take 4).contains "U" then "UNSUP result shows a value the model does not know"
       else ";".intercalate secs ++ (if nt then "\tnt=1" else "")
 
 def runCase (payload : String) : String :=
